@@ -118,6 +118,20 @@ CLAIMS = {
    note=NOTE + "C03: known finding recorded (Fourier/hybrid point sources with PSF stamps that are not band-limited ring and miss the centroid tolerance); map_coordinates modelled as zero-padded bilinear interpolation.",
    technique="Lean 4 theorems (bilinear interpolation at integers, DFT shift theorem, unit-PSF transform) on a model with regenerated PSF conventions as proof obligations + stage-wise correspondence (PSF_fft, conv_img, renders) + float32 oracle",
    design="7/C03"),
+ "C01": dict(
+   text=("Proof, partial. Proved over ℝ for every image size, PSF stamp (any size, normalised or not), ramp constant, position (integer, fractional, "
+         "off-frame), angle, ellipticity and radius: the DC theorem of the DFT synthesis model (the pixels of irfft2(G) sum to Re G(0,0), by complete "
+         "sums over roots of unity) and hence the pixel sum of any assembled scene = Re F(0,0)·ΣPSF + ΣI·ΣPSF + ΣO; Fourier/hybrid point source total = "
+         "flux·ΣPSF exactly; Fourier-renderer Sersic total = (Σ_k amps_k)·ΣPSF = flux·(Σ_k A_k(n))·ΣPSF — which REDUCES the seven-parameter tolerance "
+         "clause to the one-dimensional statement |Σ_k A_k(n) − 1| ≤ tol; pixel-renderer total = Σ(intrinsic)·ΣPSF; totals additive over components and "
+         "sources and homogeneous in flux, composites split f : 1−f; the analytic normalisation 2π·a·b·∫₀^∞ I(z) z dz = flux for ANY b_n > 0 "
+         "(Mathlib Gamma integral), with b_n > 0 on the prior support for the regenerated coefficients. Not proved (numerical, observed with the property's "
+         "own bands against an independent float64 integration): how close Σ_k A_k(n) is to 1 (scanned densely on the real table, float32 and float64), "
+         "footprint truncation of the hybrid renderer's real-space components, Gauss–Legendre accuracy of the pixel renderer. Tie: shared render "
+         "correspondence with un-normalised PSFs + amplitude-table rows vs the Lean direct-decomposition model."),
+   note=NOTE + "C01: two narrow known findings recorded (pixel renderer: sub-pixel minor axis reaching outside the oversampled box; hybrid: 3.5<n<=4 truncated by a near edge exceeds the tight band slightly).",
+   technique="Lean 4 theorems (DFT DC theorem via roots of unity, scene totals, reduction of the Fourier flux clause to 1-D, Gamma-integral normalisation) + render/table correspondence + numerical residual with the property's bands",
+   design="7/C01"),
 }
 
 checks, na = [], []
